@@ -52,6 +52,8 @@ type candidate struct {
 	assign  *Assignment
 	model   map[string]interface{}
 	expectP bool // expect a native panic instead of a failed assert
+	ideal   bool // the path involves outputs of an idealised hash: the model may not be realisable
+	infra   bool // the native replay could not be carried out (build failure, no report, desync)
 }
 
 // InputEntry is one intrinsic call's worth of recorded input.
@@ -118,6 +120,11 @@ type Explorer struct {
 	concrete bool
 	rng      *rand.Rand
 	log      func(format string, a ...interface{})
+
+	// symbolic hash outputs of the current path (hash.go)
+	hashReg   map[string]*hashEntry
+	hashList  []*hashEntry
+	idealHash bool // some output of an idealised (uninterpreted) hash exists on this path
 }
 
 func (e *Explorer) getObl(kind, id string) *Obligation {
@@ -140,6 +147,9 @@ func (e *Explorer) resetPath() {
 	e.inputs = nil
 	e.nvars = 0
 	e.trace = nil
+	e.hashReg = map[string]*hashEntry{}
+	e.hashList = nil
+	e.idealHash = false
 }
 
 // ---------- inputs ----------
@@ -509,7 +519,7 @@ func (e *Explorer) Assert(id string, c *Term) {
 		o.candCount++
 		if o.cand == nil {
 			a, pretty := e.assignment(model)
-			o.cand = &candidate{assign: a, model: pretty}
+			o.cand = &candidate{assign: a, model: pretty, ideal: e.idealHash}
 		}
 	default:
 		why := e.one.LastErr
@@ -610,7 +620,7 @@ func (e *Explorer) panicObligation(gp *goPanic) {
 	switch res {
 	case Sat:
 		a, pretty := e.assignment(model)
-		o.cand = &candidate{assign: a, model: pretty, expectP: true}
+		o.cand = &candidate{assign: a, model: pretty, expectP: true, ideal: e.idealHash}
 		o.candCount++
 	case Unknown:
 		o.unknown = "solver returned unknown for the model of a panicking path"
@@ -710,6 +720,11 @@ func (e *Explorer) finish(confirm func(o *Obligation) (confirmed bool, replayPat
 			case e.Cfg.NoReplay:
 				o.Status = "inconclusive"
 				o.Reason = "counterexample found but native replay disabled"
+			case o.cand.ideal && !o.cand.infra:
+				// the solver chose values for uninterpreted hash outputs; the real hash need not
+				// realise them, so a failed replay is not an engine defect - and not a violation
+				o.Status = "inconclusive"
+				o.Reason = "counterexample exists only under the idealised (uninterpreted) hash and did not reproduce with the real hash: " + note
 			default:
 				o.Status = "inconclusive"
 				o.mismatch = true
